@@ -234,6 +234,9 @@ func vh_C20_CurryDefSequential() {
 		return vfFn("res", len(args), calls)
 	})
 	batches := [][]int{{vfInt("a")}, {vfInt("b"), vfInt("c")}, {vfInt("d")}}
+	if k := vfChoose("empty-call-at", 4); k < 3 {
+		batches[k] = nil // a Call with no argument still invokes the function once, with all arguments so far
+	}
 	var all []int
 	ok := vfNoPanic("nopanic", func() {
 		for i, b := range batches {
